@@ -332,7 +332,7 @@ def run_check(pid, tier, seed, replay=None):
 
     for f in findings:
         if known_hits[f["id"]] > 0:
-            print(f"KNOWN-FINDING: property={pid} {f['id']}: {f['what']} (witness {json.dumps(f['witness']['args'])}; {known_hits[f['id']]} instance(s) this run)")
+            print(f"KNOWN-FINDING: property={pid} {f['id']}: {f['what']} (witness {json.dumps(f['witness']['args'])[:160]}; {known_hits[f['id']]} instance(s) this run)")
         else:
             notes.append(f"known finding {f['id']} did not reproduce on this run (its witness no longer fails)")
 
